@@ -407,7 +407,7 @@ def make_huge_id_spec(rng):
         puq[p - 1] = rng.choice([1, 1, 2])
     luq = [2] * nl
     for k in lecs:
-        luq[k - 1] = rng.choice([1, 1, 2])
+        luq[k - 1] = rng.choice([1, 1, 2, 2, 3])
     llq = [0] * nl
     lt = [rng.randint(0, u) for u in luq]
     lec = []
@@ -417,6 +417,57 @@ def make_huge_id_spec(rng):
         lec.append(random_groups(rng, studs, rng.choice(['none', 'low', 'all'])))
     return {'na': 3, 'ns': ns, 'np': np_, 'nl': nl, 'st': st, 'plq': plq, 'puq': puq, 'plec': plec,
             'llq': llq, 'lt': lt, 'luq': luq, 'lec': lec, 'shape': 'huge_ids'}
+
+
+def make_huge_id_hr_spec(rng):
+    """HR with three-digit hospital ids: 300 hospitals, a few residents who only list hospitals 258..300
+    (beyond CPython's small-int cache) and compete for their places."""
+    nh = 300
+    ns = rng.randint(2, 5)
+    pool = rng.sample(range(258, 301), rng.randint(2, 4))
+    st = []
+    for _ in range(ns):
+        k = rng.randint(1, min(3, len(pool)))
+        st.append(random_groups(rng, rng.sample(pool, k), rng.choice(['none', 'none', 'low', 'mid'])))
+    puq = [1] * nh
+    for h in pool:
+        puq[h - 1] = rng.choice([1, 1, 2])
+    plq = [0] * nh
+    lec = []
+    for h in range(1, nh + 1):
+        studs = [x + 1 for x in range(ns) if any(h in g for g in st[x])]
+        rng.shuffle(studs)
+        lec.append(random_groups(rng, studs, rng.choice(['none', 'none', 'low', 'all'])))
+    return {'na': 2, 'ns': ns, 'np': nh, 'nl': nh, 'st': st, 'plq': plq, 'puq': puq, 'plec': list(range(1, nh + 1)),
+            'llq': list(plq), 'lt': list(puq), 'luq': list(puq), 'lec': lec, 'shape': 'huge_ids_hr'}
+
+
+def make_long_list_spec(rng):
+    """Two or three students, one of whom ranks 10 to 13 projects (ranks with two digits: rank 10 sorts before
+    rank 2 as a string); the others compete for that student's first choices."""
+    np_ = rng.randint(10, 13)
+    ns = rng.randint(2, 3)
+    order = list(range(1, np_ + 1))
+    rng.shuffle(order)
+    st = [random_groups(rng, order, rng.choice(['none', 'none', 'none', 'low']))]
+    for _ in range(ns - 1):
+        k = rng.randint(1, 2)
+        st.append([[p] for p in rng.sample(order[:3] + order[-2:], k)])
+    rng.shuffle(st)
+    nl = rng.choice([1, 2, 3])
+    plec = [rng.randint(1, nl) for _ in range(np_)]
+    puq = [1] * np_
+    plq = [0] * np_
+    luq = [rng.choice([1, 2, ns]) for _ in range(nl)]
+    llq = [0] * nl
+    lt = [rng.randint(0, u) for u in luq]
+    lec = []
+    for k in range(nl):
+        studs = [x + 1 for x in range(ns) if any(plec[p - 1] == k + 1 for g in st[x] for p in g)]
+        rng.shuffle(studs)
+        lec.append(random_groups(rng, studs, rng.choice(['none', 'low', 'all'])))
+    return {'na': 3, 'ns': ns, 'np': np_, 'nl': nl, 'st': st, 'plq': plq, 'puq': puq, 'plec': plec,
+            'llq': llq, 'lt': lt, 'luq': luq, 'lec': lec, 'shape': 'long_list'}
 
 
 def make_long_rank_spec(rng):
